@@ -56,7 +56,8 @@ def gen_world(seed, tier):
             b = add_var("b%d" % r, 0, 1, "integer")
             ctyp = rng.choice(["integer", "continuous"]) if float(ub).is_integer() else "continuous"
             c = add_var("c%d" % r, 0, ub, ctyp, role="factor_c")
-            p = add_var("p%d" % r, 0, ub, "continuous", role="defined")
+            # the helper's preconditions concern the factors only: the product variable may have a looser box
+            p = add_var("p%d" % r, rng.choice([0, 0, -3, -10]), ub + rng.choice([0, 0, 4]), "continuous", role="defined")
             ops.append({"op": "add_vars", "prefix": "b%d_" % r, "ids": [b], "style": "scalar"})
             ops.append({"op": "add_vars", "prefix": "c%d_" % r, "ids": [c], "style": "scalar"})
             ops.append({"op": "add_vars", "prefix": "p%d_" % r, "ids": [p], "style": "scalar"})
@@ -70,7 +71,7 @@ def gen_world(seed, tier):
             i = add_var("i%d" % r, 0, iub, "integer")
             ctyp = rng.choice(["integer", "continuous"]) if float(ub).is_integer() and ub <= 5 else "continuous"
             c = add_var("c%d" % r, 0, ub, ctyp, role="factor_c")
-            p = add_var("p%d" % r, 0, iub * ub, "continuous", role="defined")
+            p = add_var("p%d" % r, rng.choice([0, 0, -5]), iub * ub + rng.choice([0, 0, 3]), "continuous", role="defined")
             ops.append({"op": "add_vars", "prefix": "i%d_" % r, "ids": [i], "style": "scalar"})
             ops.append({"op": "add_vars", "prefix": "c%d_" % r, "ids": [c], "style": "scalar"})
             ops.append({"op": "add_vars", "prefix": "p%d_" % r, "ids": [p], "style": "scalar"})
@@ -259,7 +260,9 @@ def execute(spec):
                     ubs = [vars_[v]["ub"] for v in ids]
                     typ = vars_[ids[0]]["type"]
                     if op["style"] == "dict":
-                        lb_arg, ub_arg = {kk: l for kk, l in zip(keys, lbs)}, {kk: u for kk, u in zip(keys, ubs)}
+                        # dict bounds map index -> bound; their insertion order is unrelated to the index order
+                        lb_arg = {kk: l for kk, l in reversed(list(zip(keys, lbs)))}
+                        ub_arg = {kk: u for kk, u in sorted(zip(keys, ubs), key=lambda t: (t[0] * 7) % 5)}
                     elif op["style"] == "list":
                         lb_arg, ub_arg = list(lbs), list(ubs)
                     else:
